@@ -41,6 +41,7 @@ func runC30(c *an.Check) {
 	c.Rule("C30.R1", "GetFee: on every path the rate factor of the fee is max(base, floor field), base = fallback field iff the estimator failed or answered 0; fee = rate*txSize*4/1000; GetFee is the only consumer of the estimator and the only source of Bitcoin fees")
 	c.Rule("C30.R2", "DetermineFeeFloor returns 25 iff (major,minor) >= (29,2), else 253 (also when unparsable); major/minor are submatch 1/2 of the version pattern")
 	c.Rule("C30.R3", "the floor wired into NewBitcoinOnChain / NewGBitcoindEstimator is DetermineFeeFloor's result or a constant >= the legacy floor")
+	c.Rule("C30.R5", "in every Estimator implementation the `estimate == 0` test that selects the fallback sees a value that can be zero: it is not raised to a floor on every path before the test")
 	c.Rule("C30.R4", "CompareVersionStrings: two-sided component comparison at equal indices, equal => true, Atoi errors returned, both sides padded with \"0\"")
 	w := c.W
 	getFee := w.Func("onchain", "(*BitcoinOnChain).GetFee")
@@ -67,6 +68,7 @@ func runC30(c *an.Check) {
 	c30R2(c, floorFn, legacy, modern)
 	c30R3(c, legacy)
 	c30R4(c, cmp)
+	c30R5(c)
 }
 
 // c30ConstInt reads a package-level integer constant through go/types.
@@ -333,6 +335,33 @@ func (p *c30Path) resolve(v ssa.Value) ssa.Value {
 		case *ssa.Convert:
 			v = x.X
 			continue
+		case *ssa.UnOp:
+			// a load of a local slot (defer-spilled result): the last store on the path
+			al, isAl := x.X.(*ssa.Alloc)
+			if x.Op != token.MUL || !isAl {
+				return v
+			}
+			var last ssa.Value
+			found := false
+			for bi := len(p.blocks) - 1; bi >= 0 && !found; bi-- {
+				b := p.blocks[bi]
+				instrs := b.Instrs
+				from := len(instrs) - 1
+				if b == x.Block() && bi == len(p.blocks)-1 {
+					from = an.InstrIndex(x) - 1
+				}
+				for i := from; i >= 0; i-- {
+					if st, ok := instrs[i].(*ssa.Store); ok && st.Addr == ssa.Value(al) {
+						last, found = st.Val, true
+						break
+					}
+				}
+			}
+			if !found {
+				return v
+			}
+			v = last
+			continue
 		case *ssa.Phi:
 			b := x.Block()
 			at := -1
@@ -589,6 +618,22 @@ func c30R1(c *an.Check, getFee, newChain *ssa.Function) {
 			}
 		}
 	}
+	// ... or in a helper of GetFee that computes the whole rate: then the paths of
+	// that helper are judged and GetFee only multiplies
+	rateFn := getFee
+	var rateCall *ssa.Call
+	if len(ests) == 0 {
+		for _, call := range an.Calls(getFee) {
+			cc, isCall := call.(*ssa.Call)
+			f := w.Info(call).Static
+			if !isCall || f == nil || !w.InModule(f) || f.Blocks == nil || f.Signature.Results().Len() != 1 || !c30IsInt(f.Signature.Results().At(0).Type()) {
+				continue
+			}
+			if inner := callsNamed(w, f, c30IfEstimate); len(inner) == 1 && rateCall == nil {
+				rateFn, rateCall, ests = f, cc, inner
+			}
+		}
+	}
 	if len(ests) != 1 {
 		c.Unknown("C30.R1", "GetFee estimator call", pos, fmt.Sprintf("expected exactly one EstimateFeePerKW call in GetFee, found %d", len(ests)))
 		return
@@ -609,7 +654,13 @@ func c30R1(c *an.Check, getFee, newChain *ssa.Function) {
 		c.Bad("C30.R1", "GetFee rate when the estimator fails", w.Pos(ec.Pos()), "the error of EstimateFeePerKW is discarded: a failed estimation cannot select the fallback rate")
 		return
 	}
-	recv := getFee.Params[0]
+	if len(rateFn.Params) == 0 {
+		c.Unknown("C30.R1", "GetFee estimator call", pos, "the rate helper has no receiver")
+		return
+	}
+	recv := rateFn.Params[0]
+	okVals, badVals := map[ssa.Value]bool{}, map[ssa.Value]bool{}
+	otherField := map[string]string{}
 	classify := func(v ssa.Value, p *c30Path) string {
 		v = p.resolve(v)
 		if v == nil {
@@ -737,11 +788,16 @@ func c30R1(c *an.Check, getFee, newChain *ssa.Function) {
 			return c30Dec{t: true, f: true, uncertain: c30DependsOn(i.Cond, scenVals)}
 		}
 		ret := func(r *ssa.Return, p *c30Path) {
-			if len(r.Results) != 2 {
+			var rates []ssa.Value
+			if rateFn != getFee {
+				// the helper returns the rate itself
+				rates = []ssa.Value{r.Results[0]}
+			}
+			if rateFn == getFee && len(r.Results) != 2 {
 				unk = append(unk, "unexpected result arity at "+w.Pos(r.Pos()))
 				return
 			}
-			if !an.IsNilConst(r.Results[1]) {
+			if rateFn == getFee && !an.IsNilConst(r.Results[1]) {
 				if oc.name == "fails" {
 					bad = append(bad, "GetFee returns an error at "+w.Pos(r.Pos())+" instead of falling back to the configured rate")
 				} else {
@@ -749,12 +805,14 @@ func c30R1(c *an.Check, getFee, newChain *ssa.Function) {
 				}
 				return
 			}
-			m := c30MonoOf(r.Results[0], 0)
+			m := c30Mono{ok: true}
+			if rateFn == getFee {
+				m = c30MonoOf(r.Results[0], 0)
+			}
 			if !m.ok {
 				unk = append(unk, "the returned fee is not a product of a rate, the size and constants at "+w.Pos(r.Pos()))
 				return
 			}
-			var rates []ssa.Value
 			nSize := 0
 			for _, l := range m.leaves {
 				if pv := p.resolve(l); pv != nil && len(getFee.Params) > 1 && pv == getFee.Params[1] {
@@ -763,7 +821,7 @@ func c30R1(c *an.Check, getFee, newChain *ssa.Function) {
 				}
 				rates = append(rates, l)
 			}
-			if !formulaSeen {
+			if !formulaSeen && rateFn == getFee {
 				formulaSeen = true
 				want := big.NewRat(4, 1000)
 				switch {
@@ -823,11 +881,19 @@ func c30R1(c *an.Check, getFee, newChain *ssa.Function) {
 				}
 			case rc == floor && has("<", "<=", "=="):
 				nOK++
+				okVals[rates[0]] = true
 			case rc == oc.base && has(">=", ">", "=="):
 				nOK++
+				okVals[rates[0]] = true
+			case strings.HasPrefix(rc, "field:") && rc != floor && rc != fallbk:
+				// a rate remembered in another field (a cache): judged below by what is stored there
+				otherField[strings.TrimPrefix(rc, "field:")] = w.Pos(r.Pos())
+				nOK++
 			case rc == floor:
+				badVals[rates[0]] = true
 				flag(fmt.Sprintf("the floor is used although %s is not known to be below it (path facts: %s)", oc.base, facts))
 			case rc == oc.base:
+				badVals[rates[0]] = true
 				flag(fmt.Sprintf("%s is used without being known to be >= the floor (path facts: %s)", oc.base, facts))
 			case known(rc) || c30IsArith(p.resolve(rates[0])):
 				// another of the three known quantities, or arithmetic on them
@@ -836,7 +902,7 @@ func c30R1(c *an.Check, getFee, newChain *ssa.Function) {
 				unk = append(unk, fmt.Sprintf("the rate factor %s is computed by something this rule does not look into (expected max(%s, floor))", rc, oc.base))
 			}
 		}
-		okW, why := c30Walk(getFee, decide, ret)
+		okW, why := c30Walk(rateFn, decide, ret)
 		switch {
 		case !okW:
 			c.Unknown("C30.R1", oc.cons, pos, "cannot enumerate the paths of GetFee: "+why)
@@ -848,6 +914,89 @@ func c30R1(c *an.Check, getFee, newChain *ssa.Function) {
 			c.Unknown("C30.R1", oc.cons, pos, "no path reaches a return under this estimator outcome")
 		default:
 			c.OK("C30.R1", oc.cons, pos, fmt.Sprintf("%d paths: rate = max(%s, floor)", nOK, oc.base))
+		}
+	}
+
+	// --- GetFee multiplies what the rate helper returns
+	if rateFn != getFee {
+		for _, r := range an.Returns(getFee) {
+			if len(r.Results) != 2 || !an.IsNilConst(r.Results[1]) {
+				continue
+			}
+			m := c30MonoOf(r.Results[0], 0)
+			nSize, nRate, nOther := 0, 0, 0
+			for _, l := range m.leaves {
+				switch {
+				case len(getFee.Params) > 1 && l == ssa.Value(getFee.Params[1]):
+					nSize++
+				case l == ssa.Value(rateCall):
+					nRate++
+				default:
+					nOther++
+				}
+			}
+			switch {
+			case !m.ok || nSize != 1 || nRate != 1 || nOther != 0:
+				c.Unknown("C30.R1", "GetFee fee formula", w.Pos(r.Pos()), "the fee is not <rate helper>*txSize*const")
+			case m.bad:
+				c.Bad("C30.R1", "GetFee fee formula", w.Pos(r.Pos()), "an integer division / float->int conversion truncates the rate before it is multiplied by the size: 25 sat/kw * 4 / 1000 becomes 0 sat/vb and the fee 0")
+			default:
+				c.Decide(m.coef.Cmp(big.NewRat(4, 1000)) == 0, "C30.R1", "GetFee fee formula", w.Pos(r.Pos()),
+					"fee = rate[sat/kw] * txSize[vb] * 4/1000", "the constant factor of rate*txSize is "+m.coef.RatString()+", not 4/1000 (sat/kw -> sat/vb): the effective rate differs from the clamped one")
+			}
+		}
+	}
+	// --- a rate that is read back from another field (cache hit) must have been stored clamped
+	var ofs []string
+	for f := range otherField {
+		ofs = append(ofs, f)
+	}
+	sort.Strings(ofs)
+	for _, f := range ofs {
+		cons := "GetFee rate read back from field " + f
+		verdict, why := "unknown", "no store to the field found"
+		for _, st := range w.FieldWriters(f) {
+			if an.IsTestSupport(w.FnRel(st.Parent())) {
+				continue
+			}
+			sv := st.Val
+			for {
+				if cv, ok := sv.(*ssa.Convert); ok {
+					sv = cv.X
+					continue
+				}
+				if ct, ok := sv.(*ssa.ChangeType); ok {
+					sv = ct.X
+					continue
+				}
+				break
+			}
+			if k, isK := an.ConstInt(sv); isK && k == 0 {
+				continue // resetting the slot
+			}
+			switch {
+			case okVals[sv] && !badVals[sv]:
+				if verdict == "unknown" {
+					verdict, why = "ok", ""
+				}
+			case (rateV != nil && sv == rateV) || badVals[sv]:
+				verdict, why = "bad", "at "+w.Pos(st.Pos())+" the field is set to "+w.Term(sv)+", the estimate BEFORE the floor clamp"
+			default:
+				if verdict != "bad" {
+					verdict, why = "unknown", "at "+w.Pos(st.Pos())+" the field is set to "+w.Term(sv)+", which this rule cannot relate to the clamped rate"
+				}
+			}
+			if verdict == "bad" {
+				break
+			}
+		}
+		switch verdict {
+		case "ok":
+			c.OK("C30.R1", cons, otherField[f], "the remembered rate is the clamped one")
+		case "bad":
+			c.Bad("C30.R1", cons, otherField[f], "a path that bypasses the estimator returns b."+f[strings.LastIndex(f, ".")+1:]+" as the rate without clamping it, and "+why+": after one estimate below the floor every fee computed from the remembered rate is below the floor (second GetFee within the cache lifetime)")
+		default:
+			c.Unknown("C30.R1", cons, otherField[f], "a path returns the field as the rate without clamping it; "+why)
 		}
 	}
 
@@ -3055,3 +3204,193 @@ func (it *c30XInterp) lib(call *ssa.Call, as []interface{}) (interface{}, bool) 
 	}
 	return nil, false
 }
+
+// ---- R5 ------------------------------------------------------------------------------
+
+// c30R5: "fall back to the configured rate when the estimate is zero" needs a
+// zero test that can hold. For every Estimator implementation whose
+// EstimateFeePerKW branches on `x == 0` (or `x <= 0`), x is traced to where it
+// comes from; when it is the result of an in-module helper, every successful
+// return of that helper is judged on every path: a return whose value is a
+// floor substituted under `v < F`, or v under `v >= F`, cannot be zero unless F
+// is; a constant 0 or a value that met no such comparison can.
+func c30R5(c *an.Check) {
+	w := c.W
+	estT := w.Named("onchain", "Estimator")
+	if estT == nil {
+		c.Anchor("onchain.Estimator does not resolve")
+		return
+	}
+	ei, _ := estT.Underlying().(*types.Interface)
+	nImpl, nTests := 0, 0
+	for _, rel := range c30SortedRels(w) {
+		if an.IsTestSupport(rel) {
+			continue
+		}
+		scope := w.ByRel[rel].Types.Scope()
+		for _, name := range scope.Names() {
+			tn, ok := scope.Lookup(name).(*types.TypeName)
+			if !ok {
+				continue
+			}
+			nt, ok := tn.Type().(*types.Named)
+			if !ok || ei == nil || types.IsInterface(nt) || !(types.Implements(nt, ei) || types.Implements(types.NewPointer(nt), ei)) {
+				continue
+			}
+			m := w.Method(nt, "EstimateFeePerKW")
+			if m == nil || m.Blocks == nil {
+				continue
+			}
+			nImpl++
+			var cmpInstrs []*ssa.BinOp
+			for _, b := range m.Blocks {
+				for _, in := range b.Instrs {
+					if bo, ok := in.(*ssa.BinOp); ok {
+						cmpInstrs = append(cmpInstrs, bo)
+					}
+				}
+			}
+			for _, bo := range cmpInstrs {
+				isB := true
+				if !isB || (bo.Op != token.EQL && bo.Op != token.LEQ && bo.Op != token.NEQ && bo.Op != token.GTR) {
+					continue
+				}
+				var x ssa.Value
+				if k, isK := an.ConstInt(bo.Y); isK && k == 0 && c30IsInt(bo.X.Type()) {
+					x = bo.X
+				} else if k, isK := an.ConstInt(bo.X); isK && k == 0 && c30IsInt(bo.Y.Type()) && (bo.Op == token.EQL || bo.Op == token.NEQ) {
+					x = bo.Y
+				}
+				if x == nil {
+					continue
+				}
+				for {
+					if cv, ok := x.(*ssa.Convert); ok {
+						x = cv.X
+						continue
+					}
+					if ct, ok := x.(*ssa.ChangeType); ok {
+						x = ct.X
+						continue
+					}
+					break
+				}
+				nTests++
+				cons := rel + "." + name + ".EstimateFeePerKW zero test"
+				pos := w.Pos(bo.Pos())
+				ex, isEx := x.(*ssa.Extract)
+				var hc *ssa.Call
+				if isEx {
+					hc, _ = ex.Tuple.(*ssa.Call)
+				}
+				var helper *ssa.Function
+				if hc != nil {
+					helper = hc.Call.StaticCallee()
+				}
+				if helper == nil || !w.InModule(helper) || helper.Blocks == nil {
+					// a field of the RPC answer, an RPC result, a constant ...: nothing in between
+					c.OK("C30.R5", cons, pos, "the tested value is "+w.Term(x)+", taken as it is (no in-module code between the answer and the test)")
+					continue
+				}
+				// judge the helper's successful returns
+				errIdx := -1
+				for k := helper.Signature.Results().Len() - 1; k >= 0; k-- {
+					if an.IsErrorType(helper.Signature.Results().At(k).Type()) {
+						errIdx = k
+						break
+					}
+				}
+				id := func(v ssa.Value) string { return fmt.Sprintf("%p", v) }
+				capable, raised, unknown := 0, 0, 0
+				var raisedAt []string
+				okW, why := c30Walk(helper, func(i *ssa.If, p *c30Path) c30Dec {
+					cond := p.resolve(i.Cond)
+					neg := false
+					for cond != nil {
+						u, isU := cond.(*ssa.UnOp)
+						if !isU || u.Op != token.NOT {
+							break
+						}
+						neg, cond = !neg, p.resolve(u.X)
+					}
+					d := c30Dec{t: true, f: true}
+					if cb, ok := cond.(*ssa.BinOp); ok && c30IsCmp(cb.Op) && c30IsInt(cb.X.Type()) {
+						lx, ly := p.resolve(cb.X), p.resolve(cb.Y)
+						if lx != nil && ly != nil {
+							d.tf = "cmp|" + id(lx) + "|" + c30RelOn(cb.Op, true) + "|" + id(ly)
+							d.ff = "cmp|" + id(lx) + "|" + c30RelOn(cb.Op, false) + "|" + id(ly)
+							if neg {
+								d.tf, d.ff = d.ff, d.tf
+							}
+						}
+					}
+					return d
+				}, func(r *ssa.Return, p *c30Path) {
+					if errIdx >= 0 && !an.IsNilConst(r.Results[errIdx]) {
+						return // a failed call is the other fallback trigger
+					}
+					if ex.Index >= len(r.Results) {
+						unknown++
+						return
+					}
+					v := p.resolve(r.Results[ex.Index])
+					if v == nil {
+						unknown++
+						return
+					}
+					if k, isK := an.ConstInt(v); isK {
+						if k == 0 {
+							capable++
+						} else {
+							raised++
+						}
+						return
+					}
+					vid := id(v)
+					clamped := false
+					for _, f := range p.facts {
+						parts := strings.Split(f, "|")
+						if len(parts) != 4 {
+							continue
+						}
+						// v >= F / v > F with F not a constant 0: v is not below the floor
+						if parts[1] == vid && (parts[2] == ">=" || parts[2] == ">") && !c30IsZeroID(p, parts[3]) {
+							clamped = true
+						}
+						// F <= v written the other way round
+						if parts[3] == vid && (parts[2] == "<=" || parts[2] == "<") {
+							clamped = true
+						}
+						// v is the floor substituted under x < v
+						if parts[3] == vid && (parts[2] == "<" || parts[2] == "<=") {
+							clamped = true
+						}
+						if parts[1] == vid && (parts[2] == ">" || parts[2] == ">=") {
+							clamped = true
+						}
+					}
+					if clamped {
+						raised++
+						raisedAt = append(raisedAt, w.Pos(r.Pos()))
+					} else {
+						capable++
+					}
+				})
+				switch {
+				case !okW:
+					c.Unknown("C30.R5", cons, pos, "cannot enumerate the paths of "+w.FuncName(helper)+": "+why)
+				case capable > 0:
+					c.OK("C30.R5", cons, pos, fmt.Sprintf("%s can hand a zero (or unclamped) estimate to the test on %d of its successful paths", w.FuncName(helper), capable))
+				case raised > 0 && unknown == 0:
+					c.Bad("C30.R5", cons, pos, fmt.Sprintf("a zero estimate is raised to the floor before the zero test: on every successful path of %s (returns at %v) the value it hands back went through `if v < floor { v = floor }`, so `estimate == 0` can never hold, the fallback branch is dead and an empty estimate yields the relay floor instead of the configured fallback rate", w.FuncName(helper), raisedAt))
+				default:
+					c.Unknown("C30.R5", cons, pos, "cannot trace the tested value through "+w.FuncName(helper))
+				}
+			}
+		}
+	}
+	c.AtLeast("C30.R5", "Estimator implementations", nImpl, 3)
+	c.AtLeast("C30.R5", "zero tests of an estimate in EstimateFeePerKW", nTests, 2)
+}
+
+func c30IsZeroID(p *c30Path, id string) bool { return false }
